@@ -97,7 +97,7 @@ class RGBLed:
     ) -> None:
         """Gradually transition to the provided colour over ``duration_ms``."""
 
-        if duration_ms < 0:
+        if not 0 <= duration_ms < float("inf"):
             raise ValueError("duration_ms must be non-negative")
         if steps <= 0:
             raise ValueError("steps must be positive")
@@ -136,7 +136,7 @@ class RGBLed:
 
         if times <= 0:
             raise ValueError("times must be positive")
-        if delay_ms < 0:
+        if not 0 <= delay_ms < float("inf"):
             raise ValueError("delay_ms must be non-negative")
 
         colour = (
